@@ -95,7 +95,8 @@ def classify(pn, out0, m_src, out1, m_tgt, src_mod):
         if "fold-bound-overflow" in m_tgt.flags:
             return pn + ":bound-overflow"
     elif pn == "scf-for-loop-flatten":
-        for f, k in (("flatten-floor-factor", "inner-floor-factor-not-trip-count"),
+        for f, k in (("flatten-ub-times-factor-overflow", "ub-times-factor-overflow"),
+                     ("flatten-floor-factor", "inner-floor-factor-not-trip-count"),
                      ("flatten-outer-step-ignored", "outer-step-ignored"),
                      ("flatten-iv-sum-range-not-multiple", "iv-sum-outer-range-not-multiple-of-step")):
             if f in m_src.flags:
@@ -199,6 +200,14 @@ def run_case(cx, pn, case, inputs, res, want_sample=False):
         if ms.for_execs:
             cnt("source_runs_with_loops")
         if out1 != out0:
+            f = mt.fault
+            if pn in ("licm", "control-flow-hoist") and out1 == ("undef", "branch on poison") and f is not None \
+                    and f.name == "scf.if":
+                # MLIR leaves control flow on a poison condition unspecified and declares scf.if recursively
+                # speculatable; refsem's "branch on poison is UB" is stricter than the property for an scf.if
+                # that the pass speculated. Counted, not judged.
+                cnt("excluded_speculated_scf_if_on_poison")
+                continue
             key = classify(pn, out0, ms, out1, mt, m0)
             viol(key, f"{pn}: input {row} gives {_short(out0)} before and {_short(out1)} after",
                  {"input": row, "before": _short(out0), "after": _short(out1), "after_program": str(m1)[:6000]})
